@@ -127,7 +127,7 @@ func (md *DICommonBlock) LLString() string {
 		buf.WriteString("distinct ")
 	}
 	var fields []string
-	field := fmt.Sprintf("scope: %s", md.Scope)
+	field := fmt.Sprintf("scope: %s", requiredField(md.Scope))
 	fields = append(fields, field)
 	if md.Declaration != nil {
 		field := fmt.Sprintf("declaration: %s", md.Declaration)
@@ -214,7 +214,7 @@ func (md *DICompileUnit) LLString() string {
 	var fields []string
 	field := fmt.Sprintf("language: %s", enumOrIntString(md.Language))
 	fields = append(fields, field)
-	field = fmt.Sprintf("file: %s", md.File)
+	field = fmt.Sprintf("file: %s", requiredField(md.File))
 	fields = append(fields, field)
 	if len(md.Producer) > 0 {
 		field = fmt.Sprintf("producer: %s", quote(md.Producer))
@@ -519,7 +519,7 @@ func (md *DIDerivedType) LLString() string {
 		field := fmt.Sprintf("line: %d", md.Line)
 		fields = append(fields, field)
 	}
-	field = fmt.Sprintf("baseType: %s", md.BaseType)
+	field = fmt.Sprintf("baseType: %s", requiredField(md.BaseType))
 	fields = append(fields, field)
 	if md.Size != 0 {
 		field := fmt.Sprintf("size: %d", md.Size)
@@ -891,7 +891,7 @@ func (md *DIGlobalVariableExpression) LLString() string {
 		buf.WriteString("distinct ")
 	}
 	var fields []string
-	field := fmt.Sprintf("var: %s", md.Var)
+	field := fmt.Sprintf("var: %s", requiredField(md.Var))
 	fields = append(fields, field)
 	// NOTE: Should be required. Thus nil check should not be needed. However,
 	// Clang outputs `!0 = !DIGlobalVariableExpression(var: !1)` in cat.ll.
@@ -955,7 +955,7 @@ func (md *DIImportedEntity) LLString() string {
 	var fields []string
 	field := fmt.Sprintf("tag: %s", dwarfTagString(md.Tag))
 	fields = append(fields, field)
-	field = fmt.Sprintf("scope: %s", md.Scope)
+	field = fmt.Sprintf("scope: %s", requiredField(md.Scope))
 	fields = append(fields, field)
 	if md.Entity != nil {
 		field := fmt.Sprintf("entity: %s", md.Entity)
@@ -1028,11 +1028,11 @@ func (md *DILabel) LLString() string {
 		buf.WriteString("distinct ")
 	}
 	var fields []string
-	field := fmt.Sprintf("scope: %s", md.Scope)
+	field := fmt.Sprintf("scope: %s", requiredField(md.Scope))
 	fields = append(fields, field)
 	field = fmt.Sprintf("name: %s", quote(md.Name))
 	fields = append(fields, field)
-	field = fmt.Sprintf("file: %s", md.File)
+	field = fmt.Sprintf("file: %s", requiredField(md.File))
 	fields = append(fields, field)
 	field = fmt.Sprintf("line: %d", md.Line)
 	fields = append(fields, field)
@@ -1087,7 +1087,7 @@ func (md *DILexicalBlock) LLString() string {
 		buf.WriteString("distinct ")
 	}
 	var fields []string
-	field := fmt.Sprintf("scope: %s", md.Scope)
+	field := fmt.Sprintf("scope: %s", requiredField(md.Scope))
 	fields = append(fields, field)
 	if md.File != nil {
 		field := fmt.Sprintf("file: %s", md.File)
@@ -1151,7 +1151,7 @@ func (md *DILexicalBlockFile) LLString() string {
 		buf.WriteString("distinct ")
 	}
 	var fields []string
-	field := fmt.Sprintf("scope: %s", md.Scope)
+	field := fmt.Sprintf("scope: %s", requiredField(md.Scope))
 	fields = append(fields, field)
 	if md.File != nil {
 		field := fmt.Sprintf("file: %s", md.File)
@@ -1225,7 +1225,7 @@ func (md *DILocalVariable) LLString() string {
 		field := fmt.Sprintf("arg: %d", md.Arg)
 		fields = append(fields, field)
 	}
-	field := fmt.Sprintf("scope: %s", md.Scope)
+	field := fmt.Sprintf("scope: %s", requiredField(md.Scope))
 	fields = append(fields, field)
 	if md.File != nil {
 		field := fmt.Sprintf("file: %s", md.File)
@@ -1311,7 +1311,7 @@ func (md *DILocation) LLString() string {
 		field := fmt.Sprintf("column: %d", md.Column)
 		fields = append(fields, field)
 	}
-	field := fmt.Sprintf("scope: %s", md.Scope)
+	field := fmt.Sprintf("scope: %s", requiredField(md.Scope))
 	fields = append(fields, field)
 	if md.InlinedAt != nil {
 		field := fmt.Sprintf("inlinedAt: %s", md.InlinedAt)
@@ -1443,7 +1443,7 @@ func (md *DIMacroFile) LLString() string {
 		field := fmt.Sprintf("line: %d", md.Line)
 		fields = append(fields, field)
 	}
-	field := fmt.Sprintf("file: %s", md.File)
+	field := fmt.Sprintf("file: %s", requiredField(md.File))
 	fields = append(fields, field)
 	if md.Nodes != nil {
 		field := fmt.Sprintf("nodes: %s", md.Nodes)
@@ -1504,7 +1504,7 @@ func (md *DIModule) LLString() string {
 		buf.WriteString("distinct ")
 	}
 	var fields []string
-	field := fmt.Sprintf("scope: %s", md.Scope)
+	field := fmt.Sprintf("scope: %s", requiredField(md.Scope))
 	fields = append(fields, field)
 	field = fmt.Sprintf("name: %s", quote(md.Name))
 	fields = append(fields, field)
@@ -1582,7 +1582,7 @@ func (md *DINamespace) LLString() string {
 		buf.WriteString("distinct ")
 	}
 	var fields []string
-	field := fmt.Sprintf("scope: %s", md.Scope)
+	field := fmt.Sprintf("scope: %s", requiredField(md.Scope))
 	fields = append(fields, field)
 	if len(md.Name) > 0 {
 		field := fmt.Sprintf("name: %s", quote(md.Name))
@@ -2071,7 +2071,7 @@ func (md *DISubroutineType) LLString() string {
 		field := fmt.Sprintf("cc: %s", enumOrIntString(md.CC))
 		fields = append(fields, field)
 	}
-	field := fmt.Sprintf("types: %s", md.Types)
+	field := fmt.Sprintf("types: %s", requiredField(md.Types))
 	fields = append(fields, field)
 	fmt.Fprintf(buf, "!DISubroutineType(%s)", strings.Join(fields, ", "))
 	return buf.String()
@@ -2127,7 +2127,7 @@ func (md *DITemplateTypeParameter) LLString() string {
 		field := fmt.Sprintf("name: %s", quote(md.Name))
 		fields = append(fields, field)
 	}
-	field := fmt.Sprintf("type: %s", md.Type)
+	field := fmt.Sprintf("type: %s", requiredField(md.Type))
 	if md.Defaulted {
 		field := fmt.Sprintf("defaulted: %v", md.Defaulted)
 		fields = append(fields, field)
@@ -2197,7 +2197,7 @@ func (md *DITemplateValueParameter) LLString() string {
 		field := fmt.Sprintf("type: %s", md.Type)
 		fields = append(fields, field)
 	}
-	field := fmt.Sprintf("value: %s", md.Value)
+	field := fmt.Sprintf("value: %s", requiredField(md.Value))
 	if md.Defaulted {
 		field := fmt.Sprintf("defaulted: %v", md.Defaulted)
 		fields = append(fields, field)
